@@ -143,8 +143,8 @@ Apply(e) ==
          [s EXCEPT !.envok = @ \cup (IF e.a # e.b THEN {<<0, "context-influenced-cache-keys-or-stored-entries">>} ELSE {})
                                   \cup (IF "leak" \in DOMAIN e /\ e.leak = 1 THEN {<<0, "context-content-found-in-a-stored-entry">>} ELSE {})]
     [] k = "lemit" ->     \* C19 speaks of logger records on every backend, of stdout / stderr lines under a process backend
-         [s EXCEPT !.emitted = IF st.cfg.backend = "serial" /\ e.k \in {"P", "E", "Q", "U"} THEN @ ELSE Append(@, e.m),
-                   !.emitBy = IF st.cfg.backend = "serial" /\ e.k \in {"P", "E", "Q", "U"} THEN @ ELSE Append(@, e.t)]
+         [s EXCEPT !.emitted = IF st.cfg.backend = "serial" /\ e.k \in {"P", "E", "Q", "U", "S", "V"} THEN @ ELSE Append(@, e.m),
+                   !.emitBy = IF st.cfg.backend = "serial" /\ e.k \in {"P", "E", "Q", "U", "S", "V"} THEN @ ELSE Append(@, e.t)]
     [] k = "obs_logs" ->
          [s EXCEPT !.obsLogs = TRUE, !.delivered = e.delivered]
     [] k = "pb_new" ->      \* a second bar for the same type shows as a wrong total
